@@ -1,0 +1,47 @@
+//go:build verif
+
+// Contracts for package server, read by /verif/govc. Comment-only file.
+package server
+
+// Shape of a transaction reply (RFC 7047 4.1.3): results are present up to and
+// including the first failed operation.
+//@ pred ResultShape(rs []*ovsdb.OperationResult) := forall i: int :: 0 <= i && i < len(rs) ==> (rs[i] != nil || (exists j: int :: 0 <= j && j < i && rs[j] != nil && rs[j].Error != ""))
+//@ pred AllOK(rs []*ovsdb.OperationResult) := forall i: int :: 0 <= i && i < len(rs) ==> (rs[i] != nil && rs[i].Error == "")
+
+//@ func (*OvsdbServer).transact
+//@ requires o != nil && o.db != nil
+//@ ensures ResultShape(result0)
+
+// Transact: the transaction lock is held across execution, notification and
+// commit (C17); monitors are notified exactly once, after execution and before
+// the commit, and only when no operation result carries an error (C02, C07).
+//@ func (*OvsdbServer).Transact
+//@ requires o != nil && reply != nil && o.db != nil
+//@ at call server.(*OvsdbServer).transact requires wheld(o.txnMutex) >= 1 && calls("server.(*OvsdbServer).transact") == 0
+//@ at call server.(*OvsdbServer).processMonitors requires wheld(o.txnMutex) >= 1
+//@ at call server.(*OvsdbServer).processMonitors requires calls("server.(*OvsdbServer).transact") == 1 && calls("server.(*OvsdbServer).processMonitors") == 0 && calls("database.Database.Commit") == 0
+//@ at call server.(*OvsdbServer).processMonitors requires AllOK(response)
+//@ at call database.Database.Commit requires wheld(o.txnMutex) >= 1
+//@ at call database.Database.Commit requires calls("server.(*OvsdbServer).processMonitors") == 1 && calls("database.Database.Commit") == 0
+//@ ensures calls("database.Database.Commit") == calls("server.(*OvsdbServer).processMonitors")
+//@ ensures calls("database.Database.Commit") <= 1
+//@ loop 2 invariant forall j: int :: 0 <= j && j <= rangeindex ==> (response[j] != nil && response[j].Error == "")
+
+// ---- notification path: frames ---------------------------------------------
+
+//@ func (*OvsdbServer).processMonitors
+//@ requires o != nil
+//@ modifies nothing
+
+//@ func (*monitor).Send
+//@ modifies nothing
+//@ func (*monitor).Send2
+//@ modifies nothing
+//@ func (*monitor).Send3
+//@ modifies nothing
+//@ func (*monitor).filter
+//@ modifies nothing
+//@ func (*monitor).filter2
+//@ modifies nothing
+//@ func filterColumns
+//@ modifies nothing
